@@ -79,6 +79,38 @@ def push_mut (l : List α) (x : α) : List α := l ++ [x]
 def clear_mut (l : List α) : List α := []
 def clear (l : List α) : List α := []
 
+/-! ### effect units: functions that read or change the outside world -/
+/-- the monad of translated effectful code over a world `W`: the state is INSIDE the exception layer, so a failing
+    operation keeps the changes made before it — as in Rust, where `?` only returns early -/
+abbrev M (W : Type) := ExceptT Err (StateM W)
+/-- a `Result`-returning effectful call whose result is kept as a value (`let r = f(..); match r { Ok(..) .. Err(..) .. }`) -/
+def capture {W α : Type} (x : M W α) : M W (Except Err α) := ExceptT.lift x.run
+/-- `e?` on a `Result` VALUE -/
+def liftE {W α : Type} (e : Except Err α) : M W α := match e with | .ok v => pure v | .error x => throw x
+/-- `Result::ok` -/
+def ok (r : Except ε α) : Option α := match r with | .ok v => some v | .error _ => none
+/-- `std::fs::Metadata` as far as the translated code looks at it -/
+structure Metadata where
+  dir : Bool
+  mtime : SystemTime
+  size : Nat
+  deriving DecidableEq, Repr, Inhabited
+def is_dir (m : Metadata) : Bool := m.dir
+def modified (m : Metadata) : Except Err SystemTime := .ok m.mtime
+instance : Len Metadata := ⟨fun m => m.size⟩
+/-- the text of an error message (never inspected by the program) -/
+def opaqueMsg : Str := []
+def as_millis (d : Duration) : Nat := d / 1000000
+/-- iterator adaptors on lists -/
+def keys (m : HashMap κ ν) : List κ := m.map (·.1)
+def chain (a b : List α) : List α := a ++ b
+def map (l : List α) (f : α → β) : List β := l.map f
+def collect (l : List α) : List α := l
+/-- `set.insert(x);` / `set.extend(iter);` (a set is a duplicate-free list in insertion order; the translated code never
+    relies on the order of a `HashSet`/`HashMap` — the real order is arbitrary: DESIGN §8) -/
+def set_insert [BEq α] (s : HashSet α) (x : α) : HashSet α := if s.contains x then s else s ++ [x]
+def extend [BEq α] (s : HashSet α) (l : List α) : HashSet α := l.foldl set_insert s
+
 /-- `iter().filter(p)` -/
 def filter (l : List α) (p : α → Bool) : List α := l.filter p
 /-- `iter().count()` -/
